@@ -103,16 +103,30 @@ SHAPE_PAIRS = {"ml": [[(0, 3)], np.array([[3, 0], [3, 12]])], "cl": [[(7, 12)], 
 class ScriptedRS(np.random.RandomState):
     """A RandomState whose `permutation` returns scripted orders (one per epoch)."""
 
-    def __init__(self, orders):
+    def __init__(self, orders=()):
         super().__init__(0)
+        self.script(orders)
+
+    def script(self, orders):
         self.orders = [list(o) for o in orders]
         self.used = 0
+        return self
 
     def permutation(self, n):
         o = self.orders[self.used]
         self.used += 1
         assert len(o) == n, (len(o), n)
         return np.array(o, dtype=int)
+
+
+_RS = []
+
+
+def scripted(orders):
+    """Seeding a RandomState costs 0.25 ms: one instance is re-scripted for every drive."""
+    if not _RS:
+        _RS.append(ScriptedRS())
+    return _RS[0].script(orders)
 
 
 _PROBES = {}
@@ -188,7 +202,7 @@ def drive(model, family, idx, y, g, n_total, exact, key):
         orders = [decoy, rest[:slot * L] + list(idx) + rest[slot * L:]]
         bs = L
     model.batch_size = bs
-    rs = ScriptedRS(orders)
+    rs = scripted(orders)
     out, seen = None, 0
     for epoch in range(2):
         pos = 0
